@@ -126,6 +126,20 @@ func c10Worker(env *fw.Env) {
 			c10CloseAfterPublish(env, c10PublishCase{Index: i, Active: active})
 		}
 	}
+	// Close while TWO teardown phases run into their bound (c10_twophase.go)
+	base, n = 5_000_000, 0
+	for rep := 0; rep < env.Pick(1, 3); rep++ {
+		for _, active := range []bool{true, false} {
+			for _, slow := range []string{"handler+async-error-callback", "handler-only"} {
+				i := base + n
+				n++
+				if !env.Mine(n) || !env.Want(i) {
+					continue
+				}
+				c10TwoPhase(env, c10TwoPhaseCase{Index: i, Active: active, Slow: slow})
+			}
+		}
+	}
 	// Close while a dial is in flight and nothing comes back (c10_dial.go)
 	base, n = 3_000_000, 0
 	for rep := 0; rep < env.Pick(1, 4); rep++ {
